@@ -1,5 +1,6 @@
 //! L1 simulator entry point. See /verif/DESIGN.md §2.2.
 mod c05ops;
+mod c08ops;
 mod c10;
 mod c19;
 mod c20store;
